@@ -373,30 +373,16 @@ def r6_3(model: Model, rep: Report) -> None:
 
 
 def r6_4(model: Model, rep: Report) -> None:
-    f = model.func(f"{ID}.id_star.id_star_line_9")
-    ev = Evaluator(model, primitives=set(GRAPH_PRIMS) | set(DSL_PRIMS), prim_methods={"get_base"})
-    g = graph_var(ev, "cf_graph")
-    rets = return_paths(ev.run(f, {"cf_graph": g}))
-    problems = []
-    n_leaf = 0
-    for r in rets:
-        v = r.value
-        if not (v[0] == "call" and str(v[1]).endswith("Probability.safe")):
-            problems.append("the base case does not build its term through Probability.safe(variables, interventions=one set): " + short(show(v), 140))
-            continue
-        n_leaf += 1
-        kw = kwargs_of(v)
-        dist = kw.get("distribution")
-        # every variable of the leaf is a *base* variable; the intervention set is applied once to the whole distribution
-        if not (dist and dist[0] == "comp" and dist[2][0] == "meth" and dist[2][2] == "get_base"):
-            problems.append("the leaf's variables are not reduced to base variables first (variables keeping their own subscripts would mix worlds)")
-        iv = kw.get("interventions")
-        if iv is not None and iv != const(None):
-            if any(s[0] == "comp" and s[1] in ("list", "gen") and s[2][0] == "meth" and s[2][2] == "intervene" for s in subterms(iv)):
-                problems.append("per-variable interventions")
-    if n_leaf == 0:
-        problems.append("no leaf builder found")
-    (rep.refuted if problems else rep.proven)("R6.4", construct(f, "single-world-leaf"), "; ".join(sorted(set(problems))), loc(f))
+    from ..refcmp import load_reference, run_table
+
+    if "yvref.c07" not in model.modules:
+        load_reference(model, "yvref.c07", "c07_ref.py")
+    IS = f"{ID}.id_star"
+    table = [("R6.4", f"{IS}.id_star_line_9", "line_9", {"cf_graph": ("cls", NXMG)}, {f"{IS}.get_cf_interventions"}, "single-world-leaf",
+              "the base case is ONE term P_{all subscripts of the graph}(base variables of the graph): every variable reduced to its base, one "
+              "intervention set applied to the whole distribution")]
+    run_table(model, rep, table, "yvref.c07", lambda m, prims: (lambda: Evaluator(m, primitives=set(GRAPH_PRIMS) | set(DSL_PRIMS) | set(prims), prim_methods={"get_base"})),
+              SetAlg(rewriter(graph_rewrite)), construct=construct, loc=loc)
     # Distribution.intervene applies the same variables to every child and parent
     f = model.func("y0.dsl.Distribution.intervene")
     ev = Evaluator(model, primitives=set(DSL_PRIMS), prim_methods={"intervene"})
